@@ -55,8 +55,8 @@ def worker_cf(sig, *a, **kw):
                 fh.write(json.dumps({'ev': 'done', 'key': key, 't': time.time()}) + '\n')
 
 
-class PoolTimeout(Exception):
-    pass
+class PoolTimeout(BaseException):
+    """Not an Exception: no `except Exception` of the library or of a recorder may mistake the watchdog for an outcome of the code."""
 
 
 class time_limit:
